@@ -52,6 +52,7 @@ type SoilSpec struct {
 	Horizons    []Horizon
 	RootDepth   int
 	MixedRoutes bool `json:",omitempty"` // some horizons with explicit FC / WP / PS, the others from the texture table
+	TwoGroups   bool `json:",omitempty"` // top horizon from one texture group, all lower horizons from another
 	DrainDep    int
 	DrainFrac   float64
 	GW          int // groundwater depth in dm from the soil file
@@ -231,6 +232,7 @@ type Scenario struct {
 	PrivateTextureLike   string            `json:",omitempty"`
 	FileExt              string            `json:",omitempty"` // fileExtension=<ext> on the batch line (rotation, polygon, automan files carry it)
 	GWId                 string            `json:",omitempty"` // gwId=<id> on the batch line selects the groundwater series
+	freshRef             map[int]*freshRec // per day: parameters of the reference run with a forced re-evaluation (not serialised)
 	ReducedTablesWithout string            // the project runs with a parameter folder of its own whose texture tables lack this texture
 	OwnNFunction         map[string]int    `json:",omitempty"` // YAML crop parameter file -> N-content function (7, 8, 9) it carries in the project's own parameter folder
 	AliasCrops           map[string]string // crop code of the built-in table without a shipped parameter file -> shipped crop whose parameter file the project supplies under that name
@@ -950,6 +952,34 @@ func genSoil(sc *Scenario, r *Rng, p Profile) {
 			}
 		}
 		s.Horizons = append(s.Horizons, h)
+	}
+	// 10 % of the profiles with two or more horizons are built from two texture groups (sand S, silt U, loam L, clay T, peat H:
+	// the parameter lookup treats each group in its own branch): the top horizon from one group, ALL lower horizons from
+	// another one - mineral soil over peat, peat over sand, clay over sand ...
+	if rt := NewRng(mix(mix(sc.Seed, uint64(sc.Index)), 1414)); len(s.Horizons) >= 2 && rt.Bool(0.1) {
+		groups := map[byte][]string{}
+		for _, t := range textureList {
+			groups[t[0]] = append(groups[t[0]], t)
+		}
+		keys := []byte{'S', 'U', 'L', 'T', 'H'}
+		a := keys[rt.Intn(len(keys))]
+		b := keys[rt.Intn(len(keys))]
+		for b == a {
+			b = keys[rt.Intn(len(keys))]
+		}
+		if rt.Bool(0.4) {
+			b = 'H' // peat below
+			for a == 'H' {
+				a = keys[rt.Intn(len(keys))]
+			}
+		}
+		if len(groups[a]) > 0 && len(groups[b]) > 0 {
+			s.Horizons[0].Texture = pickS(rt, groups[a])
+			for k := 1; k < len(s.Horizons); k++ {
+				s.Horizons[k].Texture = pickS(rt, groups[b])
+			}
+			s.TwoGroups = true
+		}
 	}
 	// the hydraulic route is decided per horizon by FC > 0: mostly uniform (all or none); a quarter of the explicit-value
 	// profiles with two or more horizons are mixed - some horizons carry their own values, the others (in half of the mixed
